@@ -122,9 +122,10 @@ func (kc *KeyConditionImpl) genRPNElementByVal(
 	if value.cols[idx].column.Len > 1 {
 		value.row = value.cols[idx].column.Len - 1
 	}
-	if ok := genRPNElementByOp(op, value, rpnElem); ok {
-		kc.rpn = append(kc.rpn, rpnElem)
-	}
+	// an operator that cannot be turned into a range (LIKE, MATCH) still leaves an element, of the
+	// type rpn.UNKNOWN, otherwise the AND / OR that follows has no operand to work on.
+	genRPNElementByOp(op, value, rpnElem)
+	kc.rpn = append(kc.rpn, rpnElem)
 	return nil
 }
 
@@ -169,6 +170,9 @@ func (kc *KeyConditionImpl) CheckInRange(
 			rpnStack = append(rpnStack, NewMark(true, false))
 		} else if elem.op == rpn.AlwaysFalse {
 			rpnStack = append(rpnStack, NewMark(false, true))
+		} else if elem.op == rpn.UNKNOWN {
+			// nothing is known about the atom: it can be true and it can be false in any range.
+			rpnStack = append(rpnStack, NewMark(true, true))
 		} else {
 			return Mark{}, errno.NewError(errno.ErrUnknownOpInCondition)
 		}
@@ -469,7 +473,7 @@ func (kc *KeyConditionImpl) HavePrimaryKey() bool {
 func (kc *KeyConditionImpl) GetMaxKeyIndex() int {
 	res := -1
 	for i := range kc.rpn {
-		if kc.rpn[i].op <= rpn.NotInSet {
+		if kc.rpn[i].op <= rpn.NotInSet || kc.rpn[i].op == rpn.UNKNOWN {
 			res = hybridqp.MaxInt(res, kc.rpn[i].keyColumn)
 		}
 	}
